@@ -1966,6 +1966,24 @@ class unyt_array(np.ndarray):
                             "added with data that has different units."
                         )
                     inp1 = np.asarray(inp1, dtype=new_dtype) * conv
+            if (
+                ufunc is floor_divide
+                and u0 is not u1
+                and u0 != u1
+                and not (u0.base_offset or u1.base_offset)
+                and u0.same_dimensions_as(u1)
+            ):
+                # the floor must be taken of the physical ratio, so commensurable
+                # operands are brought to the same (finer) unit first:
+                # 3 km // 2 m == 1500
+                conv, _ = u0.get_conversion_factor(u1, inp0.dtype)
+                if conv >= 1:
+                    inp0 = np.asarray(inp0) * conv
+                    u0 = u1
+                else:
+                    conv, _ = u1.get_conversion_factor(u0, inp1.dtype)
+                    inp1 = np.asarray(inp1) * conv
+                    u1 = u0
             # get the unit of the result
             mul, unit = unit_operator(u0, u1)
             # actually evaluate the ufunc
